@@ -245,6 +245,16 @@ fn mixed_kind_lists(rep: &Report) {
     let mut ctx = GridCtx::default();
     ctx.add_grid("d.datum", datum);
     ctx.add_grid("g.geoid", geoid);
+    // a grid of a kind the operator has no use for: three bands of velocities as a datum shift (they would be added
+    // to the position as radians), anything but a geoid for deflections
+    let (velo, _) = make_base(&gd, 3, 43);
+    ctx.add_grid("v.deformation", velo);
+    for def in ["gridshift grids=v.deformation", "gridshift grids=d.datum, v.deformation", "deflection grids=d.datum", "deflection grids=v.deformation", "deflection grids=g.geoid, d.datum"] {
+        rep.eval(1);
+        if ctx.op(def).is_ok() {
+            rep.violation("a grid operator accepts a grid of the wrong kind (number of bands)", json!({"def": def}));
+        }
+    }
     for list in ["d.datum, g.geoid", "g.geoid, d.datum"] {
         let def = format!("gridshift grids={list}");
         rep.eval(1);
